@@ -103,8 +103,8 @@ def check_best_of(ck, repo, f: FuncInfo, data_param, grid):
         return
     n, loss, op, best_loss, assigns = found
     where = f.loc(n)
-    ck.ob("P3", f.qualname, "comparison is strict (<): the first best candidate is kept and a worse one never replaces it", where,
-          isinstance(op, ast.Lt), found=ast.unparse(n.test))
+    ck.ob("P3", f.qualname, "a candidate replaces the best only when its loss is smaller (or equal)", where,
+          isinstance(op, (ast.Lt, ast.LtE)), found=ast.unparse(n.test))
     others = {k: v for k, v in assigns.items() if k != best_loss}
     ck.ob("P3", f.qualname, "best candidate and best loss are updated together", where, len(others) == 1 and not n.orelse,
           found=", ".join(assigns))
@@ -128,6 +128,11 @@ def check_best_of(ck, repo, f: FuncInfo, data_param, grid):
         ck.ob("P3", f.qualname, "loss is computed from the caller's own data", f.loc(loss_defs[0]), data_param in names,
               "the data the loss is evaluated on must be the function's parameter %r, not a working copy" % data_param,
               found=ast.unparse(loss_defs[0].value)[:200])
+        iters = [g.iter for x in ast.walk(loss_defs[0].value) if isinstance(x, (ast.ListComp, ast.GeneratorExp, ast.SetComp)) for g in x.generators]
+        data_iters = [i for i in iters if data_param in {y.id for y in ast.walk(i) if isinstance(y, ast.Name)}]
+        ck.ob("P3", f.qualname, "loss runs over all of the caller's data", f.loc(loss_defs[0]),
+              all(isinstance(i, ast.Name) and i.id == data_param for i in data_iters),
+              found="; ".join(ast.unparse(i) for i in data_iters))
         ck.ob("P3", f.qualname, "loss is computed from this iteration's candidate", f.loc(loss_defs[0]), bool(names & cand_names),
               found="loss uses %s; candidate is %s" % (sorted(names), ast.unparse(cand_expr)))
     # initialisation before the loops
